@@ -1041,6 +1041,58 @@ fn native_spec() {
                 println!("SPEC-REPLAY MISMATCH target=option_sort_key_kinds case=short -{sh} and long --{lg} with equal display_order: short listed={}, long listed={}", h.contains("zzshort help"), h.contains("zzlong help"));
             }
         }
+    } else if target == "validate_phases" {
+        // C03: conflicts are enforced whether or not a subcommand is present / negates requirements
+        for negates in [false, true] {
+            for with_sub in [false, true] {
+                let cmd = Command::new("p").subcommand_negates_reqs(negates)
+                    .arg(Arg::new("json").long("json").action(ArgAction::SetTrue).conflicts_with("yaml"))
+                    .arg(Arg::new("yaml").long("yaml").action(ArgAction::SetTrue))
+                    .arg(Arg::new("only").long("only").action(ArgAction::SetTrue).exclusive(true))
+                    .arg(Arg::new("need").long("need").action(ArgAction::Set).required(true))
+                    .subcommand(Command::new("init"));
+                for (mut argv, want) in [
+                    (vec!["p", "--need", "n", "--json", "--yaml"], Some(ErrorKind::ArgumentConflict)),
+                    (vec!["p", "--need", "n", "--only", "--json"], Some(ErrorKind::ArgumentConflict)),
+                    (vec!["p", "--need", "n", "--json"], None),
+                    (vec!["p", "--json"], Some(ErrorKind::MissingRequiredArgument)),
+                ] {
+                    if with_sub {
+                        argv.push("init");
+                    }
+                    let want = if with_sub && negates && want == Some(ErrorKind::MissingRequiredArgument) { None } else { want };
+                    let got = cmd.clone().try_get_matches_from(argv.clone()).err().map(|e| e.kind());
+                    if got != want {
+                        println!("SPEC-REPLAY MISMATCH target=validate_phases case=subcommand_negates_reqs={negates} {argv:?}: {got:?}, expected {want:?}");
+                    }
+                }
+            }
+        }
+        // C10: arg_required_else_help fires only when NO argument was given - an option given without a value is an argument
+        let cmd = Command::new("p").arg_required_else_help(true)
+            .arg(Arg::new("color").long("color").num_args(0..=1).action(ArgAction::Set))
+            .arg(Arg::new("flag").long("flag").action(ArgAction::SetTrue))
+            .arg(Arg::new("dflt").long("dflt").action(ArgAction::Set).default_value("d"))
+            .subcommand(Command::new("sub"));
+        for (argv, want) in [
+            (vec!["p"], Some(ErrorKind::DisplayHelpOnMissingArgumentOrSubcommand)),
+            (vec!["p", "--color"], None),
+            (vec!["p", "--color", "red"], None),
+            (vec!["p", "--flag"], None),
+            (vec!["p", "sub"], None),
+        ] {
+            let got = cmd.clone().try_get_matches_from(argv.clone()).err().map(|e| e.kind());
+            if got != want {
+                println!("SPEC-REPLAY MISMATCH target=validate_phases case=arg_required_else_help {argv:?}: {got:?}, expected {want:?}");
+            }
+        }
+        let cmd = Command::new("p").subcommand_required(true).subcommand(Command::new("sub")).arg(Arg::new("flag").long("flag").action(ArgAction::SetTrue));
+        for (argv, want) in [(vec!["p"], Some(ErrorKind::MissingSubcommand)), (vec!["p", "--flag"], Some(ErrorKind::MissingSubcommand)), (vec!["p", "sub"], None)] {
+            let got = cmd.clone().try_get_matches_from(argv.clone()).err().map(|e| e.kind());
+            if got != want {
+                println!("SPEC-REPLAY MISMATCH target=validate_phases case=subcommand_required {argv:?}: {got:?}, expected {want:?}");
+            }
+        }
     } else if target == "match_arg_error" {
         // C10: the error kind names a rule the input really breaks
         for acws in [false, true] {
